@@ -35,8 +35,14 @@ def MAP(key, e):
     return {"k": "map", "key": key, "e": e}
 
 
-def F(name, t, omitzero=False, omitempty=False, string=False, casing=0):
-    return {"name": [ord(ch) for ch in name], "t": t, "omitzero": omitzero, "omitempty": omitempty, "str": string, "casing": casing}
+def F(name, t, omitzero=False, omitempty=False, string=False, casing=0, fmt=""):
+    return {"name": [ord(ch) for ch in name], "t": t, "omitzero": omitzero, "omitempty": omitempty, "str": string, "casing": casing, "fmt": fmt}
+
+
+DUR = {"k": "dur"}
+TIME = {"k": "time"}
+DURFMTS = ["sec", "milli", "micro", "nano"]
+TIMEFMTS = ["unix", "unixmilli", "unixmicro", "unixnano"]
 
 
 def STRUCT(*fields):
@@ -70,6 +76,9 @@ HAND = [
     STRUCT(F("x", ANY), F("y", ANY, omitempty=True), F("z", ANY, omitzero=True)),
     STRUCT(F("Ab", STR, casing=1), F("a_b", STR, casing=2), F("AB", STR)),
     STRUCT(F("k", INT(8), casing=1), F("\u212a", STR), F("\u03c3x", BOOL, casing=1), F("S", STR, casing=2)),
+    STRUCT(F("s", DUR, fmt="sec"), F("m", DUR, fmt="milli", omitzero=True), F("u", PTR(DUR), fmt="micro"), F("n", DUR, fmt="nano", string=True)),
+    STRUCT(F("s", TIME, fmt="unix", omitzero=True), F("m", TIME, fmt="unixmilli")), STRUCT(F("u", TIME, fmt="unixmicro", string=True), F("n", PTR(TIME), fmt="unixnano")),
+    STRUCT(F("bad", DUR), F("ok", INT(8))), STRUCT(F("bad", DUR, fmt="unix"), F("bad2", INT(8), fmt="sec")), STRUCT(F("bad", TIME, fmt="sec"), F("l", SLICE(DUR), fmt="sec")),
     BYTES, BARR(0), BARR(2), SLICE(BYTES), MAP(STR, BYTES), PTR(BARR(1)),
     STRUCT(F("b", BYTES, omitempty=True), F("z", BYTES, omitzero=True), F("a", BARR(2), omitzero=True), F("e", BARR(0), omitempty=True), F("s", BYTES, string=True, omitempty=True)),
     STRUCT(F("n", FLOAT, string=True), F("p", PTR(INT(16, False)), string=True), F("s", STR, string=True), F("b", BOOL, string=True)),
@@ -116,9 +125,12 @@ def random_types(seed, n, depth=3):
             nm = r.choice([x for x in names if x not in used])
             used.add(nm)
             t = gen(d - 1)
-            numeric = t["k"] in ("int", "float") or (t["k"] == "ptr" and t["e"]["k"] in ("int", "float"))
+            fmt = ""
+            if r.random() < 0.12:
+                t, fmt = r.choice([(DUR, r.choice(DURFMTS)), (TIME, r.choice(TIMEFMTS)), (PTR(DUR), r.choice(DURFMTS))])
+            numeric = t["k"] in ("int", "float", "dur", "time") or (t["k"] == "ptr" and t["e"]["k"] in ("int", "float"))
             fs.append(F(nm, t, omitzero=r.random() < 0.2, omitempty=r.random() < 0.2,
-                        string=(r.random() < (0.3 if numeric else 0.04)), casing=r.choice([0, 0, 0, 1, 2])))
+                        string=(r.random() < (0.3 if numeric else 0.04)), casing=r.choice([0, 0, 0, 1, 2]), fmt=fmt))
         return STRUCT(*fs)
 
     return [gen(depth) for _ in range(n)]
@@ -139,6 +151,10 @@ def count_values(t, d):
         return 2 if d == 0 else (5 if t["signed"] else 3)
     if k == "float":
         return 2 if d == 0 else 6
+    if k == "dur":
+        return 3 if d == 0 else 7
+    if k == "time":
+        return 4 if d == 0 else 12
     if k == "bytes":
         return 3 if d == 0 else 6
     if k == "barr":
@@ -170,6 +186,8 @@ def count_inputs(t, d):
         return 6 if d == 0 else 17
     if k == "float":
         return 4 if d == 0 else 14
+    if k in ("dur", "time"):
+        return 5 if d == 0 else 28
     if k in ("bytes", "barr"):
         return 5 if d == 0 else 17
     if k == "slice":
